@@ -557,8 +557,8 @@ fn lang_candidate(rng: &mut Rng, a: &ArgSpec) -> B {
                 _ => B::s(&base),
             }
         }
-        ValParser::Bool => B::s(*rng.pick(&["true", "false", "TRUE", "True", "t", "f", "1", "0", "yes", "", " true"])),
-        ValParser::Boolish => B::s(*rng.pick(&["y", "YES", "t", "True", "ON", "1", "n", "No", "F", "false", "oFF", "0", "2", "maybe", "", "on "])),
+        ValParser::Bool => B::s(*rng.pick(&["true", "false", "TRUE", "True", "t", "f", "1", "0", "yes", "", " true", "true\n", "false\r"])),
+        ValParser::Boolish => B::s(*rng.pick(&["y", "YES", "t", "True", "ON", "1", "n", "No", "F", "false", "oFF", "0", "2", "maybe", "", "on ", "yes\n", "0\r", "no\r\n", "\ntrue"])),
         ValParser::Possible(pvs) => {
             let p = rng.pick(pvs);
             let base = if !p.aliases.is_empty() && rng.coin() { p.aliases[0].clone() } else { p.name.clone() };
